@@ -93,6 +93,8 @@ type knobs struct {
 	noSig       bool
 	sigLen      int // >0: cut the signature to this length
 	innerCut    int // >0: encrypt only the first innerCut bytes of the inner request
+	cutEnc      bool
+	encLen      int // with cutEnc: the encrypted part (encapsulated key || ciphertext) is cut to this length, framing and signature consistent
 }
 
 func nameKeyID(k type3.EncapKey) []byte {
@@ -120,6 +122,9 @@ func craft(k knobs, label string) []byte {
 	}
 	ct := ctx.Seal(aad, pt)
 	encrypted := append(append([]byte{}, enc...), ct...)
+	if k.cutEnc {
+		encrypted = encrypted[:k.encLen]
+	}
 	msg := []byte{0x00, 0x03}
 	msg = append(msg, k.outerReqKey...)
 	msg = append(msg, k.outerNameID...)
@@ -233,6 +238,12 @@ func (wd *world) construct(c Case) ([]byte, *type3.RateLimitedTokenRequestState)
 		k := base
 		k.innerCut = []int{1, 100, 257, 258}[c.Variant]
 		return craft(k, lbl), nil
+	case "crafted-short-encrypted-part":
+		// parses completely, correctly framed and signed, but the encrypted part is shorter than an
+		// encapsulated key (32 bytes) or than key + AEAD tag (48 bytes)
+		k := base
+		k.cutEnc, k.encLen = true, shortEncLens[c.Variant]
+		return craft(k, lbl), nil
 	case "crafted-blinded-message-ge-modulus":
 		k := base
 		k.blindedMsg = bytes.Repeat([]byte{0xff}, 256)
@@ -255,6 +266,8 @@ func mutate(b []byte, c Case) []byte {
 	}
 	return b
 }
+
+var shortEncLens = []int{0, 1, 16, 31, 32, 33, 47, 48, 49}
 
 var wd *world
 
@@ -367,6 +380,9 @@ func main() {
 				cases = append(cases, Case{Issuer: is, Build: b, Mut: "none", Expect: "reject", Variant: v})
 			}
 		}
+		for v := range shortEncLens {
+			cases = append(cases, Case{Issuer: is, Build: "crafted-short-encrypted-part", Mut: "none", Expect: "reject", Variant: v})
+		}
 		for v := 0; v < 4; v++ {
 			cases = append(cases, Case{Issuer: is, Build: "crafted-short-signature", Mut: "none", Expect: "reject", Variant: v})
 			exp := "reject"
@@ -390,7 +406,7 @@ func main() {
 		c.AfterHonest = true
 		cases = append(cases, c)
 	}
-	r.SetRule("per issuer: honest client requests and hand-crafted consistent requests (accepted), every single-bit change, every truncation and 5 extensions of each; hand-crafted and client-made requests for each rejecting class of the statement (unregistered / similar origin names, encryption to another issuer's name key with and without the victim's name-key id, associated data bound to another request key, signature by another key or over other contents, missing / short signature, truncated inner request, blinded message >= modulus). Cases are distinct (build, issuer, mutation) tuples; all are non-trivial")
+	r.SetRule("per issuer: honest client requests and hand-crafted consistent requests (accepted), every single-bit change, every truncation and 5 extensions of each; hand-crafted and client-made requests for each rejecting class of the statement (unregistered / similar origin names, encryption to another issuer's name key with and without the victim's name-key id, associated data bound to another request key, signature by another key or over other contents, missing / short signature, correctly framed and signed encrypted part of 0..49 bytes, truncated inner request, blinded message >= modulus). Cases are distinct (build, issuer, mutation) tuples; all are non-trivial")
 	r.Assume("crafted requests are assembled with go-hpke and crypto/ecdsa directly, independent of the client code; their expected verdict follows from their construction",
 		"an issuer that registered the empty origin name serves a request whose padded origin is all zero (the statement excludes names ending in a zero byte only)",
 		"the outer name-key id is covered by the signature only; a crafted request whose outer name-key id names another key but is otherwise consistent is not in a rejecting class of the statement and is not judged")
